@@ -212,7 +212,10 @@ def execute(plan):
             if not isinstance(s, dict):
                 vio.append(V("summary-malformed", "-l entry %s is %r" % (k, s)))
                 break
-            diff = {f: (s.get(f), exp.get(f)) for f in set(exp) | set(s) if s.get(f) != exp.get(f)}
+            # the named summary fields must equal the full decode; additional fields in a --list entry are not judged
+            diff = {f: (s.get(f), exp.get(f)) for f in exp if s.get(f) != exp.get(f)}
+            if "Message" in s and "Message" not in exp:
+                diff["Message"] = (s["Message"], None)
             if diff:
                 vio.append(V("summary-field", "-l entry %s differs from the full decode: %s" % (k, diff)))
                 break
